@@ -8,6 +8,8 @@ from sa.astx import assigned_targets, call_attr, call_name, dotted, src, stateme
 from sa.effects import class_accesses
 from sa.selftest import Mutant, Silent
 from sa.source import AnalysisError
+from sa.props._lib_e_machine import PyRaise, exc_name
+from sa.props._lib_e_http import Harness, WireError, check_name_encoder_behaviour, parse_responses
 from sa.props._lib_e import (assigns_self, call_in, calls_named, check_name_encoder, check_token_validator, http_interp, is_const, local_values, make_env,
                              no_exc, ordered, resolve_local, self_attr, walk)
 
@@ -19,24 +21,25 @@ Q = "twisted.web.http."
 QR = Q + "Request."
 SAN = "_sanitizeLinearWhitespace"
 
-TECHNIQUE = "provenance at the header sink + finite evaluation of sanitisers + CFG walks of write/finish"
+TECHNIQUE = 'AST interpretation of Request/HTTPChannel/Headers; emitted bytes read back by an independent strict parser'
 EXPLANATION = (
-    "Decides (a) provenance at the sink HTTPChannel.writeHeaders <- Request.write: reason phrase sanitised, code numeric-formatted, version "
-    "the validated clientproto, headers a Headers object whose _rawHeaders is mutated only by setRawHeaders/addRawHeader/removeHeader with an "
-    "encoded name - _istoken itself is evaluated over every byte value and the regex pitfalls (trailing LF/CRLF, NUL, blanks, empty) to accept exactly 1*tchar, every store into the encoder's name cache and every return of encode() must follow a passed _istoken test (helpers followed one level) - and _sanitizeLinearWhitespace applied to every stored value; non-Headers iterables are rebuilt through "
-    "addRawHeader; the emitted sequence has the status-line / 'name: value CRLF' / final CRLF layout; cookies are concatenations of literals "
-    "and _sanitize()d pieces; (b) by evaluating the source of _sanitizeLinearWhitespace / addCookie._sanitize / toChunk over every byte value "
-    "that CR, LF (and ';') are replaced by one space, other bytes kept, and a chunk is hex(len) CRLF data CRLF; (c) by walking Request.write / "
-    "finish under all combinations of version, Content-Length, method, code, data that chunked is chosen iff HTTP/1.1 and no Content-Length and "
-    "not HEAD and code not in {204,304}, HEAD/204/304 never write a body and disable later writes, empty data is never chunk-encoded, the "
-    "terminator 0 CRLF CRLF is written iff chunked after the headers were forced out, once. (d) persistence and framing agree: over version x Connection header x Content-Length x method x code, whenever checkPersistence keeps the connection open "
-    "every body-carrying response is Content-Length- or chunked-delimited (close-delimited responses only on connections that close). Not decided: that an independent parser reads "
-    "back exactly the headers set; Content-Length supplied by the application matching the body."
+    'The repository source is never imported or run: an AST interpreter (sa/props/_lib_e_machine.py) executes the syntax trees of web/http.py, http_headers'
+    '.py, _abnf.py, protocols/basic.py, policies.py and internet/protocol.py with model collaborators (transport, clock, network producer, body file) whose'
+    ' inputs are observable; unknown externals are opaque values that fork the path. Helper methods are simply executed, so extract/inline-helper, guard-cl'
+    'ause, temporaries, comprehension refactorings do not matter. Decided: for combinations of version, method, status code, Content-Length set/unset/clear'
+    'ed/removed, Connection header and write sequences (incl. empty writes and bodies that look like chunk terminators) the bytes on the model transport pa'
+    'rse - with a strict reader written in the checker - as exactly one response with that status, exactly the headers set, the concatenated body (none for'
+    ' HEAD/204/304), and are self-delimited (Content-Length or chunked) whenever the connection stays open; HTTP/1.1 persistence follows Connection: close;'
+    ' hostile header values / reason phrases (CR, LF, CRLF, response splitting, text, non-ASCII) via setHeader, addRawHeader, setRawHeaders, setResponseCod'
+    'e and the plain-pairs path of writeHeaders stay inside their field with line breaks replaced by spaces; invalid header names are refused every time; c'
+    'ookies with hostile pieces in every field produce one Set-Cookie with exactly name=value and the attributes given; finish twice / late write / HEAD la'
+    'ter writes. Pure helpers (_sanitizeLinearWhitespace, toChunk, _istoken) are evaluated over every byte value. Not decided: Content-Length supplied by t'
+    'he application matching the body it writes; lastModified formatting.'
 )
 ASSUMPTIONS = [
-    "networkString(s) == s.encode('ascii') for the hexadecimal length text",
-    "bytes.splitlines / replace behave as in CPython (used by the finite evaluator)",
-    "Request.code is an int (b'%d' formatting refuses anything else)",
+    'CPython semantics for the builtin values the interpreter delegates to',
+    "networkString(s) == s.encode('ascii')",
+    'Request.code is an int',
 ]
 
 
@@ -63,17 +66,6 @@ def _sanitisers(ctx, I):
     ctx.check(bad is None, "sanitiser/no-line-breaks", q,
               f"_sanitizeLinearWhitespace({bad[0]!r}) gives {bad[1]} {bad[2]!r}: CR/LF must be replaced by a single space and every other byte kept" if bad else "",
               detail=f"{len(dom)} values: no CR/LF in the output, other bytes preserved, one line break -> one space")
-    fs = ctx.func(HTTP, "Request.addCookie._sanitize")
-    bad = None
-    for x in dom + [b"a;b", b"a; Secure", b";", b"a;\r\nb"]:
-        kind, out = I.outcome(fs, [x])
-        ok = kind == "ok" and isinstance(out, bytes) and not (set(out) & {10, 13, 59}) and \
-            out.replace(b" ", b"") == bytes(c for c in x if c not in (10, 13, 59, 32))
-        if not ok and bad is None:
-            bad = (x, kind, out)
-    ctx.check(bad is None, "sanitiser/cookie-piece", QR + "addCookie._sanitize",
-              f"_sanitize({bad[0]!r}) gives {bad[1]} {bad[2]!r}: CR, LF and ';' must not survive in a cookie name/value/attribute" if bad else "",
-              detail="no CR/LF/';' in the output, other bytes preserved")
     ft = ctx.func(HTTP, "toChunk")
     bad = None
     for d in [b"a", b"ab" * 5, b"x" * 15, b"x" * 16, b"x" * 17, b"x" * 255, b"x" * 256, b"x" * 4096, b"\r\n", b"0\r\n\r\n", bytes(range(256))]:
@@ -93,465 +85,350 @@ def _sanitisers(ctx, I):
               detail="chunk = 1*HEXDIG(len) CRLF data CRLF for lengths 1..4096")
 
 
-def _headers_store(ctx):
-    mod = ctx.mod(HDRS)
-    cls = ctx.cls(HDRS, "Headers")
-    qh = "twisted.web.http_headers.Headers."
-    acc = class_accesses(mod, cls, {"_rawHeaders"}, receivers={"self"})
-    allowed = {"Headers.__init__": {"rebind-empty"}, "Headers.removeHeader": {"pop_key"}, "Headers.setRawHeaders": {"setitem"},
-               "Headers.addRawHeader": {"setdefault"}}
-    n_store = 0
-    for a in acc:
-        cons = ctx.construct("twisted.web.http_headers." + a.func, a.node)
-        if not ctx.check(a.kind in allowed.get(a.func, set()), "headers/who-may-write", cons,
-                         f"_rawHeaders is mutated ({a.kind}) outside the sanitising entry points setRawHeaders/addRawHeader"):
+# ---- behaviour of Request / HTTPChannel / Headers on the wire, by interpretation ------------------------------------------------
+
+def _flat(v: bytes) -> bytes:
+    """What a header component must look like on the wire: every run-free line break replaced by one space (oracle, independent
+    of the implementation: computed byte by byte)."""
+    out = bytearray()
+    i = 0
+    while i < len(v):
+        c = v[i]
+        if c == 13 and i + 1 < len(v) and v[i + 1] == 10:
+            out.append(32)
+            i += 2
             continue
-        if a.kind not in ("setitem", "setdefault"):
-            continue
-        n_store += 1
-        f = ctx.func(HDRS, a.func)
-        params = [p.arg for p in f.args.args]
-        if a.kind == "setitem":
-            tgt = next(t for t in a.node.targets if isinstance(t, ast.Subscript))
-            key, val = tgt.slice, a.node.value
-            pieces = []
-            for v in resolve_local(f, val):
-                if isinstance(v, ast.ListComp):
-                    pieces.append(v.elt)
-                elif isinstance(v, ast.List) and not v.elts and isinstance(val, ast.Name):
-                    for c in ast.walk(f):
-                        if isinstance(c, ast.Call) and call_name(c) in (val.id + ".append",) and c.args:
-                            pieces.append(c.args[0])
-                        elif isinstance(c, ast.Call) and (call_name(c) or "").startswith(val.id + ".") and call_attr(c) in ("extend", "insert"):
-                            pieces.append(c)
+        out.append(32 if c in (10, 13) else c)
+        i += 1
+    return bytes(out)
+
+
+def _same_modulo_spaces(got: bytes, given: bytes) -> bool:
+    return b"\r" not in got and b"\n" not in got and got.replace(b" ", b"") == given.replace(b"\r", b"").replace(b"\n", b"").replace(b" ", b"")
+
+
+def _request_bytes(method, version, conn):
+    return method + b" /r " + version + b"\r\nHost: x\r\n" + (b"Connection: " + conn + b"\r\n" if conn else b"") + b"\r\n"
+
+
+def _respond(H, method=b"GET", version=b"HTTP/1.1", conn=None, actions=()):
+    """Scenario: one request; the application performs ``actions`` = [(method name, args)] on the Request, errors recorded."""
+    def scen(H):
+        errors = []
+
+        def process(mm, req):
+            for name, args in actions:
+                target = req
+                if name.startswith("attr:"):
+                    H.m.set_attr(req, name[5:], args[0])
+                    continue
+                if name.startswith("responseHeaders."):
+                    target, name2 = req.attrs["responseHeaders"], name.split(".", 1)[1]
                 else:
-                    pieces.append(v)
-        else:
-            key = a.node.args[0] if a.node.args else None
-            par = getattr(getattr(a.node, "_parent", None), "_parent", None)
-            pieces = [par.args[0]] if isinstance(par, ast.Call) and call_attr(par) == "append" and par.args else [a.node]
-        kvals = resolve_local(f, key) if key is not None else []
-        ok = bool(kvals) and all(isinstance(k, ast.Call) and call_name(k) == "_nameEncoder.encode" and len(k.args) == 1 and
-                                 isinstance(k.args[0], ast.Name) and k.args[0].id == params[1] for k in kvals)
-        ctx.check(ok, "headers/name-encoded", cons, "a header is stored under a name that did not pass _nameEncoder.encode (token check)")
-        ok = bool(pieces) and all(_is_san(p) for p in pieces)
-        ctx.check(ok, "headers/value-sanitised", cons,
-                  "a header value is stored without _sanitizeLinearWhitespace: CR/LF in the value reach the wire (header injection / response splitting)")
-    ctx.floor("headers/value-sanitised", n_store, 2)
-    # nobody else reaches into _rawHeaders from the HTTP server module
-    hm = ctx.mod(HTTP)
-    outside = [n for n in ast.walk(hm.tree) if isinstance(n, ast.Attribute) and n.attr == "_rawHeaders"]
-    ctx.check(not outside, "headers/who-may-write", "twisted.web.http | ._rawHeaders", "web/http.py reaches into Headers._rawHeaders directly")
+                    name2 = name
+                try:
+                    H.call(target, name2, *args)
+                except PyRaise as e:
+                    errors.append((name, exc_name(e.exc)))
+        ch = H.channel(process=process)
+        H.feed(ch, _request_bytes(method, version, conn))
+        return H.wire(), H.transport.attrs["disconnecting"], errors, len(H.seen)
+    return H.run(scen)
 
 
-def _write_headers(ctx):
-    f = ctx.func(HTTP, "HTTPChannel.writeHeaders")
-    g = ctx.cfg(f)
-    q = Q + "HTTPChannel.writeHeaders"
-    params = [p.arg for p in f.args.args]
-    ctx.need(len(params) == 5, "writeHeaders(self, version, code, reason, headers)")
-    pv, pc, pr, ph = params[1:]
-    sinks = calls_named(g, "self.transport.writeSequence", "self.transport.write")
-    ctx.need(sinks, "transport.writeSequence in writeHeaders")
-    seqs = [n for n in g.ids(lambda n: n.kind == "stmt" and isinstance(n.ast, ast.Assign) and isinstance(n.ast.value, ast.List)
-                             and len(n.ast.targets) == 1 and isinstance(n.ast.targets[0], ast.Name)) if len(g.node(n).ast.value.elts) >= 3]
-    ctx.need(seqs, "status line list in writeHeaders")
-    st = g.node(seqs[0]).ast
-    seq = st.targets[0].id
-    elts = st.value.elts
-    shape = [e.id if isinstance(e, ast.Name) else (e.value if isinstance(e, ast.Constant) else "?") for e in elts]
-    ctx.check(shape == [pv, b" ", pc, b" ", pr, b"\r\n"], "wire/status-line", ctx.construct(q, st),
-              f"the status line is not 'version SP code SP reason CRLF' (got {shape!r})")
-    for s in sinks:
-        c = call_in(g.node(s).ast, "self.transport.writeSequence", "self.transport.write")
-        ctx.check(len(c.args) == 1 and seq in src(c.args[0]), "wire/sequence-written", ctx.construct(q, c), "the header sequence built is not what is written")
-    outer = [n for n in g.ids(lambda n: n.kind == "for") if "getAllRawHeaders" in src(g.node(n).ast.iter)]
-    ctx.check(bool(outer), "wire/header-lines", q, "the response headers are no longer iterated into the header sequence")
-    ext = []
-    for n in g.ids(lambda n: n.kind == "stmt"):
-        c = call_in(g.node(n).ast, seq + ".extend", seq + ".append", seq + ".insert")
-        if c is not None:
-            ext.append((n, c))
-    finals = []
-    for n, c in ext:
-        a = c.args[-1] if c.args else None
-        inloop = any(g.dominates(o, n) and g.path([n], [o], edge_ok=no_exc, strict=True) for o in outer)
-        if inloop:
-            sh = [e.id if isinstance(e, ast.Name) else (e.value if isinstance(e, ast.Constant) else "?") for e in a.elts] if isinstance(a, (ast.Tuple, ast.List)) else None
-            fo = g.node(outer[0]).ast
-            nm = fo.target.elts[0].id if isinstance(fo.target, ast.Tuple) and isinstance(fo.target.elts[0], ast.Name) else None
-            inner = [x for x in ast.walk(fo) if isinstance(x, ast.For) and x is not fo]
-            vn = inner[0].target.id if inner and isinstance(inner[0].target, ast.Name) else None
-            ctx.check(sh == [nm, b": ", vn, b"\r\n"] and nm is not None and vn is not None, "wire/header-lines", ctx.construct(q, c),
-                      f"a header line is not 'name: value CRLF' built from the iterated name and value (got {sh!r})")
-        elif is_const(a, b"\r\n") and call_attr(c) == "append":
-            finals.append(n)
-        else:
-            ctx.violation("wire/header-lines", ctx.construct(q, c), "unexpected element added to the header sequence")
-    w = ordered(g, finals, sinks)
-    after = bool(finals) and outer and all(g.path([fn], outer, edge_ok=no_exc, strict=True) is None for fn in finals)
-    ctx.check(bool(finals) and w is None and after, "wire/header-block-terminated", q,
-              "the header block is not terminated by exactly one empty line after the last header", witness=g.describe(w))
-    # compatibility input: anything that is not a Headers object is rebuilt through addRawHeader
-    tests = [t for t in g.ids(lambda n: n.kind == "test") if src(g.node(t).ast) == f"isinstance({ph}, Headers)"]
-    if not tests:
-        ctx.ok("headers/foreign-iterable-rebuilt", q, "no non-Headers input path")
-    for t in tests:
-        fs = [d for d, l in g.succ[t] if l == "F"]
-        reb = [n for n in g.ids(lambda n: n.kind == "stmt" and isinstance(n.ast, ast.Assign) and any(isinstance(x, ast.Name) and x.id == ph for x in n.ast.targets))]
-        wit = g.must_pass(fs, reb, to=outer or sinks, exc=False, strict=False)
-        ok = bool(reb) and wit is None
-        for n in reb:
-            v = g.node(n).ast.value
-            vals = local_values(f, v.id) if isinstance(v, ast.Name) else []
-            ok = ok and bool(vals) and all(isinstance(x, ast.Call) and call_name(x) == "Headers" and not x.args and not x.keywords for x in vals)
-            fills = [c for c in ast.walk(f) if isinstance(c, ast.Call) and isinstance(v, ast.Name) and (call_name(c) or "").startswith(v.id + ".")]
-            ok = ok and bool(fills) and all(call_attr(c) in ("addRawHeader", "setRawHeaders") for c in fills)
-        ctx.check(ok, "headers/foreign-iterable-rebuilt", ctx.construct(q, g.node(t).ast),
-                  "header pairs given as a plain iterable reach the wire without being rebuilt through Headers.addRawHeader (no name check, no CR/LF removal)",
-                  witness=g.describe(wit))
-
-
-def _status_provenance(ctx):
-    f = ctx.func(HTTP, "Request.write")
-    g = ctx.cfg(f)
-    q = QR + "write"
-    wh = calls_named(g, "self.channel.writeHeaders")
-    ctx.need(wh, "self.channel.writeHeaders call in Request.write")
-    cls = ctx.cls(HTTP, "Request")
-    mod = ctx.mod(HTTP)
-    for n in wh:
-        c = call_in(g.node(n).ast, "self.channel.writeHeaders")
-        ctx.need(len(c.args) == 4 and not c.keywords, "writeHeaders(version, code, reason, headers) positional call")
-        av, ac, ar, ah = c.args
-        # reason
-        vals = resolve_local(f, ar)
-        at_sink = bool(vals) and all(_is_san(v) for v in vals)
-        ok = at_sink
-        if not ok and all(self_attr(v, "code_message") for v in vals):
-            ws = [a for a in class_accesses(mod, cls, {"code_message"}) if a.kind == "assign"]
-            ok = bool(ws) and all(_is_san(a.node.value) or "RESPONSES" in src(a.node.value) and not any(
-                isinstance(x, ast.Name) and x.id in [p.arg for p in ctx.func(HTTP, a.func).args.args][2:] for x in ast.walk(a.node.value)) for a in ws)
-        ctx.check(ok, "status/reason-sanitised", ctx.construct(q, c),
-                  "the reason phrase reaches the status line unsanitised: setResponseCode(200, b'OK\\r\\nX-Injected: yes') injects a header / splits the response")
-        # code
-        vals = resolve_local(f, ac)
-        def numeric(v):
-            if isinstance(v, ast.BinOp) and isinstance(v.op, ast.Mod) and isinstance(v.left, ast.Constant) and v.left.value in (b"%d", "%d", b"%i", b"%u"):
-                return True
-            if isinstance(v, ast.Call) and call_name(v) in ("intToBytes", "networkString", "str", "bytes") and "int(" in src(v):
-                return True
-            if isinstance(v, ast.Call) and call_name(v) in ("intToBytes",):
-                return True
-            t = src(v)
-            if not isinstance(v, (ast.Name, ast.Attribute)) and ("str(" in t or "int(" in t or "%d" in t or ":d}" in t):
-                return True
-            return False
-        raw = [v for v in vals if isinstance(v, (ast.Name, ast.Attribute))]
-        if raw or all(numeric(v) for v in vals):
-            ctx.check(not raw, "status/code-numeric", ctx.construct(q, c), "the status code is written as given instead of being formatted as a decimal number")
-        else:
-            ctx.need(False, f"recognised numeric formatting of the status code ({[src(v) for v in vals]})")
-        # version
-        vals = resolve_local(f, av)
-        ctx.check(all(self_attr(v, "clientproto") for v in vals), "status/version-validated", ctx.construct(q, c),
-                  "the response version is not the request's validated clientproto")
-        ctx.check(src(ah) == "self.responseHeaders", "status/headers-object", ctx.construct(q, c), "the headers written are not the Request's Headers object")
-    # clientproto only from the channel's validated request line
-    rr = ctx.func(HTTP, "Request.requestReceived")
-    p3 = rr.args.args[3].arg if len(rr.args.args) >= 4 else None
-    for a in [a for a in class_accesses(mod, cls, {"clientproto"}) if a.kind == "assign"]:
-        v = a.node.value
-        ctx.check(a.func == "Request.requestReceived" and isinstance(v, ast.Name) and v.id == p3, "status/version-validated", ctx.construct(Q + a.func, a.node),
-                  "clientproto is assigned from something other than the version validated by _parseRequestLine")
-    # every header mutation precedes the moment the headers are written
-    muts = calls_named(g, "self.responseHeaders.setRawHeaders", "self.responseHeaders.addRawHeader", "self.responseHeaders.removeHeader")
-    for m in muts:
-        late = g.path(wh, [m], edge_ok=no_exc, strict=True)
-        ctx.check(late is None, "headers/complete-before-written", ctx.construct(q, call_in(g.node(m).ast, ".setRawHeaders", ".addRawHeader", ".removeHeader")),
-                  "a response header is set after the header block was written (it is silently lost)", witness=g.describe(late))
-
-
-def _cookies(ctx):
-    f = ctx.func(HTTP, "Request.addCookie")
-    g = ctx.cfg(f)
-    q = QR + "addCookie"
-    apps = calls_named(g, "self.cookies.append")
-    ctx.need(apps, "self.cookies.append in addCookie")
-    cvar = None
-    for n in apps:
-        a = call_in(g.node(n).ast, "self.cookies.append").args[0]
-        cvar = a.id if isinstance(a, ast.Name) else None
-        ctx.check(cvar is not None, "cookie/pieces-sanitised", ctx.construct(q, g.node(n).ast), "the stored cookie is not the assembled value")
-    count = 0
-    for n in g.ids(lambda n: n.kind == "stmt" and isinstance(n.ast, (ast.Assign, ast.AugAssign))):
-        st = g.node(n).ast
-        tg = assigned_targets(st)
-        if not (len(tg) == 1 and isinstance(tg[0], ast.Name) and tg[0].id == cvar):
-            continue
-        ops = []
-
-        def flat(e):
-            if isinstance(e, ast.BinOp) and isinstance(e.op, ast.Add):
-                flat(e.left)
-                flat(e.right)
+def _response_grid(ctx, H):
+    q = QR + "write/finish"
+    tier = ctx.tier
+    writes_set = [[], [b"ab"], [b"ab", b"", b"cd"], [b""], [b"0\r\n\r\n", b"x"]]
+    combos = []
+    for version in (b"HTTP/1.1", b"HTTP/1.0"):
+        for method in (b"GET", b"HEAD", b"POST"):
+            for code in (200, 204, 304, 404):
+                for cl in (False, True, "cleared", "removed"):
+                    for conn in (None, b"close", b"keep-alive"):
+                        for wi, writes in enumerate(writes_set):
+                            combos.append((version, method, code, cl, conn, wi))
+    if tier == "quick":
+        combos = [c for i, c in enumerate(combos) if i % 23 == 0 or (c[1] == b"GET" and c[2] == 200 and c[5] == 2 and c[4] != b"keep-alive")]
+    groups = {}
+    for c in combos:
+        groups.setdefault((c[0], c[1]), []).append(c)
+    for (version, method), cs in groups.items():
+        bad = None
+        for version, method, code, cl, conn, wi in cs:
+            writes = writes_set[wi]
+            body = b"".join(writes)
+            clact = {False: [], True: [("setHeader", (b"content-length", b"%d" % len(body)))],
+                     "cleared": [("setHeader", (b"content-length", b"99")), ("responseHeaders.setRawHeaders", (b"Content-Length", []))],
+                     "removed": [("setHeader", (b"content-length", b"99")), ("responseHeaders.removeHeader", (b"Content-Length",))]}[cl]
+            actions = [("setResponseCode", (code,))] + clact + [("setHeader", (b"x-app", b"1"))] + \
+                [("write", (w,)) for w in writes] + [("finish", ())]
+            o = _respond(H, method, version, conn, actions)
+            label = f"{version.decode()} {method.decode()} {code} Content-Length={ {False: 'unset', True: 'set'}.get(cl, cl) } Connection={conn} writes={writes!r}"
+            if o.kind != "ok":
+                bad = (label, f"{o.kind} {o.exc_name}")
+                break
+            wire, closed, errors, handed = o.value
+            nobody = method == b"HEAD" or code in (204, 304)
+            try:
+                rs = parse_responses(wire, [method], closed)
+            except WireError as e:
+                bad = (label, f"the emitted bytes {wire[:120]!r} (connection {'closed' if closed else 'kept open'}) are not one well-delimited response: {e}")
+                break
+            problems = []
+            if errors or handed != 1 or len(rs) != 1:
+                problems.append(f"errors {errors}, {len(rs)} responses")
             else:
-                ops.append(e)
-        flat(st.value)
-        for e in ops:
-            count += 1
+                r = rs[0]
+                if r["code"] != code or r["version"] != version:
+                    problems.append(f"status line {r['version']!r} {r['code']}")
+                if r["body"] != (b"" if nobody else body):
+                    problems.append(f"body {r['body']!r}, expected {(b'' if nobody else body)!r}")
+                names = sorted(n.lower() for n, v in r["headers"])
+                allowed = {b"x-app", b"transfer-encoding", b"connection"} | ({b"content-length"} if cl is True else set())
+                if b"x-app" not in names or any(n not in allowed for n in names) or len(names) != len(set(names)):
+                    problems.append(f"headers {r['headers']!r}")
+                should_close = version == b"HTTP/1.0" or conn == b"close"
+                if version == b"HTTP/1.1" and closed != should_close:
+                    problems.append(f"connection closed={closed}")
+            if problems:
+                bad = (label, "; ".join(problems) + f" - wire {wire[:160]!r}")
+                break
+        ctx.check(bad is None, "response/one-well-framed-response", f"{q} | {version.decode()} {method.decode()}",
+                  f"{bad[0]}: {bad[1]}" if bad else "",
+                  detail=f"{len(cs)} combinations of code, Content-Length, Connection header and write sequences parse (independent strict reader) as exactly one response with that "
+                         "status, the headers set, the concatenated body (none for HEAD/204/304), self-delimited unless the connection closes")
+
+
+def _injection(ctx, H):
+    q = QR
+    hostile = [b"v\r\nX-Injected: yes", b"v\nX-Injected: yes", b"v\rX-Injected: yes", b"a\r\n\r\nHTTP/1.1 200 OK\r\n\r\n", b"tab\tand space ", b"caf\xc3\xa9 \xff", b"", b"a\r\n b",
+               "text\r\nX-Injected: yes", "café\n", b"v\x0bw\x0cx"]
+    # header values (setHeader, responseHeaders.addRawHeader / setRawHeaders, the compatibility path of writeHeaders)
+    for api in ("setHeader", "responseHeaders.addRawHeader", "responseHeaders.setRawHeaders"):
+        bad = None
+        for v in hostile:
+            args = (b"X-Test", [v]) if api.endswith("setRawHeaders") else (b"X-Test", v)
+            o = _respond(H, actions=[(api, args), ("write", (b"body",)), ("finish", ())])
+            given = v.encode("utf8") if isinstance(v, str) else v
+            try:
+                if o.kind != "ok":
+                    raise WireError(f"{o.kind} {o.exc_name}")
+                wire, closed, errors, handed = o.value
+                r = parse_responses(wire, [b"GET"], closed)[0]
+                got = [val for n, val in r["headers"] if n.lower() == b"x-test"]
+                names = sorted(n.lower() for n, val in r["headers"])
+                if errors or names != [b"transfer-encoding", b"x-test"] or len(got) != 1 or not _same_modulo_spaces(got[0], given.strip(b" \t")) and got[0] != _flat(given).strip(b" \t") or r["body"] != b"body":
+                    raise WireError(f"errors {errors}, headers {r['headers']!r}, body {r['body']!r}")
+            except WireError as e:
+                bad = (v, str(e), o.value[0][:160] if o.kind == "ok" else b"")
+                break
+        ctx.check(bad is None, "injection/header-value", f"{q}{api}",
+                  f"value {bad[0]!r}: {bad[1]} - wire {bad[2]!r}; expected exactly the headers set with line breaks replaced by spaces" if bad else "",
+                  detail=f"{len(hostile)} hostile values (CR, LF, CRLF, response splitting, text, non-ASCII)")
+    # reason phrase
+    bad = None
+    for v in [x for x in hostile if isinstance(x, bytes)]:
+        o = _respond(H, actions=[("setResponseCode", (200, v)), ("write", (b"body",)), ("finish", ())])
+        try:
+            if o.kind != "ok":
+                raise WireError(f"{o.kind} {o.exc_name}")
+            wire, closed, errors, handed = o.value
+            r = parse_responses(wire, [b"GET"], closed)[0]
+            if errors or not _same_modulo_spaces(r["reason"], v) or sorted(n.lower() for n, val in r["headers"]) != [b"transfer-encoding"] or r["body"] != b"body":
+                raise WireError(f"errors {errors}, reason {r['reason']!r}, headers {r['headers']!r}")
+        except WireError as e:
+            bad = (v, str(e), o.value[0][:160] if o.kind == "ok" else b"")
+            break
+    ctx.check(bad is None, "injection/reason-phrase", q + "setResponseCode",
+              f"setResponseCode(200, {bad[0]!r}): {bad[1]} - wire {bad[2]!r}" if bad else "", detail="hostile reason phrases stay on the status line")
+    # header names
+    bad = None
+    for nm in (b"Bad Name", b"X-Foo\r\nX-Injected", b"X-Foo\n", b"X:Y", b"", b"X-Foo ", "X-Foo\n", "café", b"X\x00"):
+        for api in ("setHeader", "responseHeaders.addRawHeader"):
+            o = _respond(H, actions=[(api, (nm, b"v")), (api, (nm, b"v")), ("write", (b"body",)), ("finish", ())])
+            try:
+                if o.kind != "ok":
+                    raise WireError(f"{o.kind} {o.exc_name}")
+                wire, closed, errors, handed = o.value
+                r = parse_responses(wire, [b"GET"], closed)[0]
+                if [e[1] for e in errors] != ["InvalidHeaderName"] * 2 or sorted(n.lower() for n, val in r["headers"]) != [b"transfer-encoding"]:
+                    raise WireError(f"errors {errors}, headers {r['headers']!r}")
+            except WireError as e:
+                bad = (api, nm, str(e))
+                break
+        if bad:
+            break
+    ctx.check(bad is None, "injection/header-name-refused", q + "setHeader",
+              f"{bad[0]}({bad[1]!r}, ...) twice: {bad[2]}; an invalid header name must be refused (InvalidHeaderName) every time and never reach the wire" if bad else "")
+    # valid names come out canonical, values kept
+    o = _respond(H, actions=[("setHeader", (b"x-custom-header", b"1")), ("attr:etag", (b'W/"x"',)), ("addCookie", (b"a", b"b")), ("write", (b"b",)), ("finish", ())])
+    ok = o.kind == "ok"
+    if ok:
+        try:
+            r = parse_responses(o.value[0], [b"GET"], o.value[1])[0]
+            ok = sorted(r["headers"]) == sorted([(b"X-Custom-Header", b"1"), (b"ETag", b'W/"x"'), (b"Set-Cookie", b"a=b"), (b"Transfer-Encoding", b"chunked")])
+        except WireError:
             ok = False
-            if isinstance(e, ast.Constant) and isinstance(e.value, bytes):
-                ok = not (set(e.value) & {10, 13})
-            elif isinstance(e, ast.Name) and e.id == cvar:
-                ok = True
-            elif isinstance(e, ast.Call) and call_name(e) == "_sanitize":
-                ok = True
-            elif isinstance(e, ast.Name):
-                for t, lab in g.edge_guards(n):
-                    te = g.node(t).ast
-                    if isinstance(te, ast.Compare) and len(te.ops) == 1 and isinstance(te.left, ast.Name) and te.left.id == e.id and \
-                            isinstance(te.comparators[0], (ast.List, ast.Tuple, ast.Set)) and \
-                            ((isinstance(te.ops[0], ast.NotIn) and lab == "F") or (isinstance(te.ops[0], ast.In) and lab == "T")) and \
-                            all(isinstance(x, ast.Constant) and isinstance(x.value, bytes) and not (set(x.value) & {10, 13, 59}) for x in te.comparators[0].elts):
-                        ok = True
-            ctx.check(ok, "cookie/pieces-sanitised", f"{q} | {src(st)[:70]} | piece {src(e)[:50]}",
-                      f"cookie piece {src(e)} is neither a literal nor _sanitize()d nor checked against a constant list: CR/LF/';' in it inject a header or a cookie attribute")
-    ctx.floor("cookie/pieces-sanitised", count, 12)
-    mod = ctx.mod(HTTP)
-    for a in class_accesses(mod, ctx.cls(HTTP, "Request"), {"cookies"}):
-        ctx.check((a.func, a.kind) in (("Request.__init__", "rebind-empty"), ("Request.addCookie", "append")), "cookie/who-may-write",
-                  ctx.construct(Q + a.func, a.node), "Request.cookies is mutated outside addCookie")
+    ctx.check(ok, "response/headers-as-set", q + "setHeader", f"headers set with valid names, the etag attribute and a cookie are not each emitted exactly once in canonical form: {o.value[0][:200] if o.kind == 'ok' else o.exc_name!r}")
+    # compatibility path: writeHeaders given plain pairs
+    def scen(H):
+        ch = H.channel()
+        H.call(ch, "writeHeaders", b"HTTP/1.1", b"200", b"OK", [(b"x-a", b"v\r\nX-Injected: yes"), (b"X-B", b"2"), (b"x-a", b"second")])
+        H.call(ch, "write", b"")
+        return H.wire()
+    o = H.run(scen)
+    ok = o.kind == "ok"
+    if ok:
+        try:
+            r = parse_responses(o.value + b"", [b"HEAD"], False)[0]
+            ok = sorted(r["headers"]) == sorted([(b"X-A", b"v X-Injected: yes"), (b"X-A", b"second"), (b"X-B", b"2")]) and (r["version"], r["code"], r["reason"]) == (b"HTTP/1.1", 200, b"OK")
+        except WireError:
+            ok = False
+    ctx.check(ok, "injection/foreign-header-pairs", Q + "HTTPChannel.writeHeaders",
+              f"writeHeaders with a plain iterable of pairs emits {o.value[:200] if o.kind == 'ok' else o.exc_name!r}; expected the same pairs with canonical names and line breaks replaced")
 
 
-def _write_body(ctx, I):
-    f = ctx.func(HTTP, "Request.write")
-    g = ctx.cfg(f)
-    q = QR + "write"
-    dp = f.args.args[1].arg
-    consts = I.consts
-    nb = consts.get("NO_BODY_CODES")
-    ctx.check(nb is not None and set(nb) == {204, 304}, "body/no-body-codes", Q + "NO_BODY_CODES", f"NO_BODY_CODES is {nb!r}; 204 and 304 responses must not carry a body")
-    wh = calls_named(g, "self.channel.writeHeaders")
-    setc = assigns_self(g, "chunked", lambda v: isinstance(v, ast.Constant) and bool(v.value))
-    te = [n for n in calls_named(g, "self.responseHeaders.setRawHeaders") if "transfer-encoding" in src(g.node(n).ast).lower()]
-    bchunk = [n for n in calls_named(g, "self.channel.writeSequence", "self.channel.write", "self.transport.writeSequence", "self.transport.write") if call_in(g.node(n).ast, "toChunk")]
-    bplain = [n for n in calls_named(g, "self.channel.write", "self.transport.write") if n not in bchunk]
-    noop = assigns_self(g, "write")
-    ctx.need(wh and setc and te and bchunk and bplain, "writeHeaders / chunked flag / Transfer-Encoding header / body writes in Request.write")
-    for n in te:
-        c = call_in(g.node(n).ast, "self.responseHeaders.setRawHeaders")
-        ok = len(c.args) == 2 and isinstance(c.args[0], ast.Constant) and isinstance(c.args[1], ast.List) and len(c.args[1].elts) == 1 and is_const(c.args[1].elts[0], b"chunked")
-        ctx.check(ok, "body/chunked-header-value", ctx.construct(q, c), "the Transfer-Encoding header announced is not exactly 'chunked'")
-    for n in bchunk:
-        c = call_in(g.node(n).ast, "toChunk")
-        ctx.check(len(c.args) == 1 and src(c.args[0]) == dp, "body/chunk-is-the-data", ctx.construct(q, c), "the chunk written is not the data passed to write()")
-    for n in bplain:
-        c = call_in(g.node(n).ast, "self.channel.write", "self.transport.write")
-        ctx.check(len(c.args) == 1 and src(c.args[0]) == dp, "body/chunk-is-the-data", ctx.construct(q, c), "the bytes written are not the data passed to write()")
-    for n in noop:
-        v = g.node(n).ast.value
-        ok = isinstance(v, ast.Lambda) and not any(isinstance(x, ast.Call) for x in ast.walk(v.body))
-        ctx.check(ok, "body/later-writes-disabled", ctx.construct(q, g.node(n).ast), "the replacement for write() on a body-less response still writes")
-
-    def hit(vis, nodes):
-        return any(n in vis for n in nodes)
-    CLTERM = "self.responseHeaders.getRawHeaders(b'Content-Length')"
-    for ver, cl, meth, code, data in itertools.product((b"HTTP/1.1", b"HTTP/1.0"), (None, [b"5"]), (b"GET", b"HEAD", b"POST"), (200, 204, 304, 404), (b"xyz", b"")):
-        env = make_env({"self.finished": 0, "self._disconnected": False, "self.startedWriting": 0, "self.clientproto": ver, CLTERM: cl,
-                        "self.method": meth, "self.code": code, dp: data, "self.chunked": 0, "self.lastModified": None, "self.etag": None,
-                        "self.cookies": [], "self.sentLength": 0})
-        vis = walk(g, I, env)
-        want_chunked = ver == b"HTTP/1.1" and cl is None and meth != b"HEAD" and code not in (204, 304)
-        nobody = meth == b"HEAD" or code in (204, 304)
-        label = f"{q} | {ver.decode()} CL={'set' if cl else 'none'} {meth.decode()} {code} data={'yes' if data else 'empty'}"
-        ctx.check(hit(vis, wh), "body/headers-on-first-write", label, "the first write does not emit the headers")
-        ctx.check(hit(vis, setc) == want_chunked and hit(vis, te) == want_chunked, "body/chunked-iff", label,
-                  ("chunked coding is not selected although HTTP/1.1, no Content-Length, body allowed" if want_chunked else
-                   "chunked coding is selected although the response has a Content-Length / is HTTP/1.0 / HEAD / 204 / 304 (framing inconsistent with the body)"))
-        if nobody:
-            ctx.check(not hit(vis, bchunk) and not hit(vis, bplain) and hit(vis, noop), "body/none-for-head-204-304", label,
-                      "a HEAD / 204 / 304 response writes body bytes, or later writes are not disabled")
-        elif data:
-            ctx.check(hit(vis, bchunk) == want_chunked and hit(vis, bplain) == (not want_chunked), "body/encoding-matches-framing", label,
-                      "the body bytes are not written in the coding announced by the headers")
-        else:
-            ctx.check(not hit(vis, bchunk) and not hit(vis, bplain), "body/empty-write-not-encoded", label,
-                      "an empty write emits bytes: with chunked coding that is the terminator '0 CRLF CRLF' in the middle of the body")
-    for ch, data in itertools.product((0, 1), (b"xyz", b"")):
-        env = make_env({"self.finished": 0, "self._disconnected": False, "self.startedWriting": 1, dp: data, "self.chunked": ch, "self.sentLength": 0})
-        vis = walk(g, I, env)
-        label = f"{q} | later write chunked={ch} data={'yes' if data else 'empty'}"
-        ctx.check(not hit(vis, wh), "body/headers-once", label, "the header block is written again on a later write")
-        if data:
-            ctx.check(hit(vis, bchunk) == bool(ch) and hit(vis, bplain) == (not ch), "body/encoding-matches-framing", label, "later body bytes are not written in the announced coding")
-        else:
-            ctx.check(not hit(vis, bchunk) and not hit(vis, bplain), "body/empty-write-not-encoded", label, "an empty later write emits bytes (chunked terminator)")
-    for fin, disc in ((1, False), (0, True)):
-        env = make_env({"self.finished": fin, "self._disconnected": disc, "self.startedWriting": 1, dp: b"x", "self.chunked": 1})
-        vis = walk(g, I, env)
-        ctx.check(not hit(vis, bchunk + bplain + wh), "body/no-write-after-finish", f"{q} | finished={fin} disconnected={disc}",
-                  "bytes are written after finish() / after the connection was lost")
-    sw = assigns_self(g, "startedWriting", lambda v: isinstance(v, ast.Constant) and bool(v.value))
-    w = ordered(g, sw, wh)
-    ctx.check(bool(sw) and w is None, "body/headers-once", q + " | startedWriting", "startedWriting is not set before the headers are written", witness=g.describe(w))
+COOKIE_ATTRS = (b"Expires=", b"Domain=", b"Path=", b"Max-Age=", b"Comment=", b"Secure", b"HttpOnly", b"SameSite=")
 
 
-def _persistence_framing(ctx, I):
-    """Persistence and framing agree: whenever HTTPChannel.checkPersistence keeps the connection open after a response
-    that may carry a body, Request.write makes that response self-delimiting (Content-Length present or chunked); a
-    close-delimited response is allowed only on a connection that is then closed.  Both decisions are taken from the code:
-    checkPersistence is walked under (version, Connection header), Request.write under (version, Content-Length, method, code)."""
-    fc = ctx.func(HTTP, "HTTPChannel.checkPersistence")
-    gc = ctx.cfg(fc)
-    qc = Q + "HTTPChannel.checkPersistence"
-    rq, vp = fc.args.args[1].arg, fc.args.args[2].arg
-    fw = ctx.func(HTTP, "Request.write")
-    gw = ctx.cfg(fw)
-    dp = fw.args.args[1].arg
-    setc = assigns_self(gw, "chunked", lambda v: isinstance(v, ast.Constant) and bool(v.value))
-    ctx.need(setc, "self.chunked = 1 in Request.write")
-    # the value stored in self.persistent is this decision for the version that becomes clientproto
-    fa = ctx.func(HTTP, "HTTPChannel.allHeadersReceived")
-    sets = [st for st in ast.walk(fa) if isinstance(st, ast.Assign) and any(self_attr(t, "persistent") for t in st.targets)]
-    ok = bool(sets) and all(isinstance(st.value, ast.Call) and call_name(st.value) == "self.checkPersistence" and len(st.value.args) == 2 and
-                            src(st.value.args[1]) == "self._version" for st in sets)
-    ctx.check(ok, "persistence/decision-stored", Q + "HTTPChannel.allHeadersReceived", "self.persistent is not checkPersistence(request, self._version)")
-    CLTERM = "self.responseHeaders.getRawHeaders(b'Content-Length')"
+def _cookies(ctx, H):
+    q = QR + "addCookie"
+    evil = [b"v\r\nSet-Cookie: evil=1", b"a;b", b"a; Secure", b"x\ny", "téxt;\r\n", b"plain"]
+    bad = None
+    slots = ["k", "v", "expires", "domain", "path", "max_age", "comment"]
+    for slot in slots:
+        for e in evil:
+            kw = {"k": b"name", "v": b"value", "expires": b"Wed, 01 Jan 2030 00:00:00 GMT", "domain": b"example.org", "path": b"/p", "max_age": b"10", "comment": b"c"}
+            kw[slot] = e
 
-    def chunked(ver, cl, meth, code):
-        env = make_env({"self.finished": 0, "self._disconnected": False, "self.startedWriting": 0, "self.clientproto": ver, CLTERM: cl, "self.method": meth,
-                        "self.code": code, dp: b"x", "self.chunked": 0, "self.lastModified": None, "self.etag": None, "self.cookies": [], "self.sentLength": 0})
-        und = []
-        vis = walk(gw, I, env, undecided=und)
-        loose = [u for u in und if gw.path([u], setc, edge_ok=no_exc)]
-        if loose:
-            raise AnalysisError(f"Request.write: the chunked decision depends on a term the evaluator cannot fix: {src(gw.node(loose[0]).ast)[:80]}")
-        return any(n in vis for n in setc)
+            def scen(H, kw=kw):
+                out = {}
 
-    for ver in (b"HTTP/1.1", b"HTTP/1.0"):
-        for conn in (None, [b"close"], [b"keep-alive"], [b"Keep-Alive"], [b"keep-alive close"], [b"close keep-alive"], [b"upgrade"], [b"KEEP-ALIVE"]):
-            results = []
+                def process(mm, req):
+                    k = dict(kw)
+                    args = [k.pop("k"), k.pop("v")]
+                    H.m.call(H.m.get_attr(req, "addCookie"), args, dict(k, secure=True, httpOnly=True, sameSite="Lax"))
+                    H.call(req, "write", b"b")
+                    H.call(req, "finish")
+                ch = H.channel(process=process)
+                H.feed(ch, _request_bytes(b"GET", b"HTTP/1.1", None))
+                return H.wire(), H.transport.attrs["disconnecting"]
+            o = H.run(scen)
+            try:
+                if o.kind != "ok":
+                    raise WireError(f"{o.kind} {o.exc_name}")
+                r = parse_responses(o.value[0], [b"GET"], o.value[1])[0]
+                cs = [v for n, v in r["headers"] if n.lower() == b"set-cookie"]
+                if len(cs) != 1 or sorted(n.lower() for n, v in r["headers"]) != [b"set-cookie", b"transfer-encoding"]:
+                    raise WireError(f"headers {r['headers']!r}")
+                parts = [p.strip(b" ") for p in cs[0].split(b";")]
+                if len(parts) != 9 or parts[0].count(b"=") < 1 or any(not p.startswith(a) for p, a in zip(parts[1:], COOKIE_ATTRS)) or parts[-1].lower() != b"samesite=lax":
+                    raise WireError(f"cookie {cs[0]!r} does not consist of name=value and exactly the eight attributes given")
+            except WireError as ex:
+                bad = (slot, e, str(ex))
+                break
+        if bad:
+            break
+    ctx.check(bad is None, "injection/cookie", q,
+              f"addCookie with {bad[0]}={bad[1]!r}: {bad[2]}; CR, LF and ';' in any cookie piece must not create headers or attributes" if bad else "",
+              detail=f"{len(slots)} cookie fields x {len(evil)} hostile values")
+    def scen(H):
+        err = []
 
-            def on(node, e, results=results):
-                if node.kind == "stmt" and isinstance(node.ast, ast.Return) and node.ast.value is not None:
-                    try:
-                        results.append(bool(I.ev(node.ast.value, e)))
-                    except Exception:
-                        results.append(None)
-            walk(gc, I, make_env({vp: ver, f"{rq}.requestHeaders.getRawHeaders(b'Connection')": conn}), on_node=on)
-            label = f"{qc} | {ver.decode()} Connection: {conn[0].decode() if conn else '(absent)'}"
-            if len(set(results)) != 1 or results[0] is None:
-                raise AnalysisError(f"checkPersistence decision not decidable for {label}: {results}")
-            persistent = results[0]
-            bad = None
-            for cl in (None, [b"5"]):
-                for meth in (b"GET", b"HEAD", b"POST"):
-                    for code in (200, 204, 304, 404):
-                        delimited = cl is not None or meth == b"HEAD" or code in (204, 304) or chunked(ver, cl, meth, code)
-                        if persistent and not delimited and bad is None:
-                            bad = (meth, code)
-            ctx.check(bad is None, "persistence/response-self-delimiting", label,
-                      (f"the connection stays open after a {ver.decode()} {bad[0].decode()} {bad[1]} response that has neither Content-Length nor chunked coding: "
-                       "its end is never marked and the next response is read as part of its body") if bad else "",
-                      detail=f"persistent={persistent}; every body-carrying response is Content-Length/chunked delimited or the connection closes")
-            if ver == b"HTTP/1.1" and conn is not None and b"close" in [t.lower() for t in conn[0].split(b" ")]:
-                ctx.check(not persistent, "persistence/close-honoured", label, "an HTTP/1.1 request with 'Connection: close' keeps the connection persistent")
+        def process(mm, req):
+            try:
+                H.m.call(H.m.get_attr(req, "addCookie"), [b"k", b"v"], {"sameSite": b"None; Secure\r\nX: y"})
+            except PyRaise as e:
+                err.append(exc_name(e.exc))
+        ch = H.channel(process=process)
+        H.feed(ch, _request_bytes(b"GET", b"HTTP/1.1", None))
+        return err
+    o = H.run(scen)
+    ctx.check(o.kind == "ok" and o.value == ["ValueError"], "injection/cookie-samesite", q, f"an unsupported sameSite value gives {o.value if o.kind == 'ok' else o.exc_name!r}; expected ValueError")
 
 
-def _finish(ctx, I):
-    f = ctx.func(HTTP, "Request.finish")
-    g = ctx.cfg(f)
+def _once(ctx, H):
     q = QR + "finish"
-    force = calls_named(g, "self.write")
-    term = [n for n in calls_named(g, "self.channel.write", "self.transport.write", "self.channel.writeSequence")]
-    ctx.check(bool(term), "finish/terminator", q, "finish() never writes the last-chunk terminator")
-    for n in term:
-        c = call_in(g.node(n).ast, "self.channel.write", "self.transport.write", "self.channel.writeSequence")
-        ctx.check(len(c.args) == 1 and is_const(c.args[0], b"0\r\n\r\n"), "finish/terminator", ctx.construct(q, c), "the chunked terminator is not exactly 0 CRLF CRLF")
-    for n in force:
-        c = call_in(g.node(n).ast, "self.write")
-        ctx.check(len(c.args) == 1 and is_const(c.args[0], b""), "finish/forces-headers", ctx.construct(q, c), "forcing the headers out adds body bytes")
-    ctx.check(bool(force), "finish/forces-headers", q, "finish() on a response that never wrote does not emit the headers")
-
-    def hit(vis, nodes):
-        return any(n in vis for n in nodes)
-    for sw, ch in itertools.product((0, 1), (0, 1)):
-        env = make_env({"self._disconnected": False, "self.finished": 0, "self.startedWriting": sw, "self.chunked": ch, "self.queued": False})
-        vis = walk(g, I, env)
-        label = f"{q} | startedWriting={sw} chunked={ch}"
-        ctx.check(hit(vis, force) == (not sw), "finish/forces-headers", label, "headers are not forced out exactly when nothing was written yet")
-        if sw:
-            ctx.check(hit(vis, term) == bool(ch), "finish/terminator-iff-chunked", label,
-                      "the terminator is written for a non-chunked response / missing for a chunked one")
-    for fin, disc in ((1, False), (0, True)):
-        env = make_env({"self._disconnected": disc, "self.finished": fin, "self.startedWriting": 1, "self.chunked": 1, "self.queued": False})
-        vis = walk(g, I, env)
-        ctx.check(not hit(vis, term + force), "finish/once", f"{q} | finished={fin} disconnected={disc}",
-                  "a second finish() (or finish after connection loss) writes the terminator / headers again")
-    for t in term:
-        back = g.path([t], force, edge_ok=no_exc, strict=True)
-        tests = [x for x in g.ids(lambda n: n.kind == "test") if src(g.node(x).ast) == "self.startedWriting"]
-        w = ordered(g, tests, [t]) if tests else None
-        ctx.check(back is None and bool(tests) and w is None, "finish/headers-before-terminator", ctx.construct(q, g.node(t).ast),
-                  "the terminator can be written before the headers were forced out", witness=g.describe(back or w))
+    o = _respond(H, actions=[("write", (b"ab",)), ("finish", ()), ("finish", ()), ("write", (b"late",))])
+    ok = o.kind == "ok"
+    detail = ""
+    if ok:
+        wire, closed, errors, handed = o.value
+        try:
+            r = parse_responses(wire, [b"GET"], closed)
+            ok = len(r) == 1 and r[0]["body"] == b"ab" and errors == [("write", "RuntimeError")]
+            detail = f"errors {errors}"
+        except WireError as e:
+            ok, detail = False, str(e)
+    ctx.check(ok, "response/finished-once", q, f"finish() twice and a late write: {detail}, wire {o.value[0][:160] if o.kind == 'ok' else o.exc_name!r}; expected one complete response and RuntimeError for the late write")
+    o = _respond(H, method=b"HEAD", actions=[("write", (b"ab",)), ("write", (b"cd",)), ("finish", ())])
+    ok = o.kind == "ok" and o.value[0].endswith(b"\r\n\r\n") and b"ab" not in o.value[0] and b"cd" not in o.value[0]
+    ctx.check(ok, "response/no-body-for-head", QR + "write", f"HEAD with two writes emits {o.value[0][:200] if o.kind == 'ok' else o.exc_name!r}; no body bytes may follow the header block, also for later writes")
 
 
 def check(ctx):
     I = http_interp(ctx)
-    for name, fn in (("sanitisers", lambda: _sanitisers(ctx, I)), ("token validator", lambda: check_token_validator(ctx, I)),
-                     ("header name encoder", lambda: check_name_encoder(ctx, I)), ("Headers store", lambda: _headers_store(ctx)),
-                     ("writeHeaders", lambda: _write_headers(ctx)), ("status line provenance", lambda: _status_provenance(ctx)),
-                     ("cookies", lambda: _cookies(ctx)), ("Request.write", lambda: _write_body(ctx, I)), ("Request.finish", lambda: _finish(ctx, I)),
-                     ("persistence vs framing", lambda: _persistence_framing(ctx, I))):
-        with ctx.section(name):
-            fn()
+    with ctx.section("sanitisers"):
+        _sanitisers(ctx, I)
+    with ctx.section("token validator"):
+        check_token_validator(ctx, I)
+    H = Harness(ctx)
+    with ctx.section("header name encoder"):
+        check_name_encoder_behaviour(ctx, H)
+    with ctx.section("responses"):
+        _response_grid(ctx, H)
+    with ctx.section("injection"):
+        _injection(ctx, H)
+    with ctx.section("cookies"):
+        _cookies(ctx, H)
+    with ctx.section("finish once / HEAD"):
+        _once(ctx, H)
 
 
 MUTANTS = [
-    Mutant('token-regex-dollar-accepts-trailing-newline', ABNF, '    for c in b:\n        if c not in (\n            b"ABCDEFGHIJKLMNOPQRSTUVWXYZabcdefghijklmnopqrstuvwxyz"  # ALPHA\n            b"0123456789"  # DIGIT\n            b"!#$%&\'*+-.^_`|~"\n        ):\n            return False\n    return b != b""\n', '    return _TOKEN_RE.match(b) is not None\n', more=[(ABNF, '"""\n\n\ndef _istoken', '"""\n\nimport re\n\n_TOKEN_RE = re.compile(rb"[A-Za-z0-9!#$%&\'*+\\-.^_`|~]+$")\n\n\ndef _istoken')], expect_rule='byte-class/exact'),
-    Mutant('name-cached-by-helper-before-validation', HDRS, '        if not _istoken(bytes_name):\n            raise InvalidHeaderName(bytes_name)\n\n        result = b"-".join([word.capitalize() for word in bytes_name.split(b"-")])\n', '        result = self._remember(name, bytes_name)\n        if not _istoken(result):\n            raise InvalidHeaderName(bytes_name)\n        return result\n\n    def _remember(self, name, bytes_name):\n        result = b"-".join([word.capitalize() for word in bytes_name.split(b"-")])\n', expect_rule='header-name/cache-after-validation'),
-    Mutant("http10-keep-alive-made-persistent", HTTP, "                return True\n        else:\n            return False\n\n    def requestDone", "                return True\n        else:\n            return b\"keep-alive\" in tokens\n\n    def requestDone",
-           expect_rule="persistence/response-self-delimiting"),
-    Mutant("every-version-persistent", HTTP, "        if version == b\"HTTP/1.1\":\n            if b\"close\" in tokens:", "        if version.startswith(b\"HTTP/1.\"):\n            if b\"close\" in tokens:",
-           expect_rule="persistence/response-self-delimiting"),
-    Mutant("F20-revert-reason-unsanitised", HTTP, "            reason = _sanitizeLinearWhitespace(self.code_message)", "            reason = self.code_message",
-           expect_rule="status/reason-sanitised"),
+    Mutant('token-regex-dollar-accepts-trailing-newline', ABNF, '    for c in b:\n        if c not in (\n            b"ABCDEFGHIJKLMNOPQRSTUVWXYZabcdefghijklmnopqrstuvwxyz"  # ALPHA\n            b"0123456789"  # DIGIT\n            b"!#$%&\'*+-.^_`|~"\n        ):\n            return False\n    return b != b""\n', '    return _TOKEN_RE.match(b) is not None\n', more=[(ABNF, '"""\n\n\ndef _istoken', '"""\n\nimport re\n\n_TOKEN_RE = re.compile(rb"[A-Za-z0-9!#$%&\'*+\\-.^_`|~]+$")\n\n\ndef _istoken')]),
+    Mutant('name-cached-by-helper-before-validation', HDRS, '        if not _istoken(bytes_name):\n            raise InvalidHeaderName(bytes_name)\n\n        result = b"-".join([word.capitalize() for word in bytes_name.split(b"-")])\n', '        result = self._remember(name, bytes_name)\n        if not _istoken(result):\n            raise InvalidHeaderName(bytes_name)\n        return result\n\n    def _remember(self, name, bytes_name):\n        result = b"-".join([word.capitalize() for word in bytes_name.split(b"-")])\n'),
+    Mutant("http10-keep-alive-made-persistent", HTTP, "                return True\n        else:\n            return False\n\n    def requestDone", "                return True\n        else:\n            return b\"keep-alive\" in tokens\n\n    def requestDone"),
+    Mutant("every-version-persistent", HTTP, "        if version == b\"HTTP/1.1\":\n            if b\"close\" in tokens:", "        if version.startswith(b\"HTTP/1.\"):\n            if b\"close\" in tokens:"),
+    Mutant("F20-revert-reason-unsanitised", HTTP, "            reason = _sanitizeLinearWhitespace(self.code_message)", "            reason = self.code_message"),
     Mutant("addRawHeader-skips-sanitiser", HDRS, "        self._rawHeaders.setdefault(_nameEncoder.encode(name), []).append(\n            _sanitizeLinearWhitespace(\n                value.encode(\"utf8\") if isinstance(value, str) else value\n            )\n        )",
-           "        self._rawHeaders.setdefault(_nameEncoder.encode(name), []).append(\n            value.encode(\"utf8\") if isinstance(value, str) else value\n        )", expect_rule="headers/value-sanitised"),
-    Mutant("setRawHeaders-skips-sanitiser", HDRS, "            encodedValues.append(_sanitizeLinearWhitespace(_v))", "            encodedValues.append(_v)", expect_rule="headers/value-sanitised"),
-    Mutant("setRawHeaders-raw-name", HDRS, "        self._rawHeaders[_name] = encodedValues", "        self._rawHeaders[name] = encodedValues", expect_rule="headers/name-encoded"),
-    Mutant("sanitiser-leaves-CR", HDRS, "    return b\" \".join(headerComponent.splitlines())", "    return b\" \".join(headerComponent.split(b\"\\n\"))", expect_rule="sanitiser/no-line-breaks"),
-    Mutant("sanitiser-joins-without-space", HDRS, "    return b\" \".join(headerComponent.splitlines())", "    return b\"\".join(headerComponent.splitlines())", expect_rule="sanitiser/no-line-breaks"),
-    Mutant("name-not-token-checked", HDRS, "        if not _istoken(bytes_name):\n            raise InvalidHeaderName(bytes_name)\n", "", expect_rule="header-name/"),
-    Mutant("cookie-semicolon-kept", HTTP, "            return _sanitizeLinearWhitespace(val).replace(b\";\", b\" \")", "            return _sanitizeLinearWhitespace(val)", expect_rule="sanitiser/cookie-piece"),
-    Mutant("cookie-path-unsanitised", HTTP, "cookie + b\"; Path=\" + _sanitize(_ensureBytes(path))", "cookie + b\"; Path=\" + _ensureBytes(path)", expect_rule="cookie/pieces-sanitised"),
-    Mutant("cookie-samesite-unchecked", HTTP, "            if sameSite not in [b\"lax\", b\"strict\"]:\n                raise ValueError(\"Invalid value for sameSite: \" + repr(sameSite))\n", "",
-           expect_rule="cookie/pieces-sanitised"),
-    Mutant("empty-write-chunk-encoded", HTTP, "        if data:\n            if self.chunked:", "        if True:\n            if self.chunked:", expect_rule="body/empty-write-not-encoded"),
-    Mutant("body-for-204-304", HTTP, "            # for certain result codes, we should never return any data\n            if self.code in NO_BODY_CODES:\n                self.write = lambda data: None\n                return\n", "",
-           expect_rule="body/none-for-head-204-304"),
-    Mutant("head-later-writes-enabled", HTTP, "            if self.method == b\"HEAD\":\n                self.write = lambda data: None\n                return", "            if self.method == b\"HEAD\":\n                return",
-           expect_rule="body/none-for-head-204-304"),
-    Mutant("chunked-with-content-length", HTTP, "                and (self.responseHeaders.getRawHeaders(b\"Content-Length\") is None)\n", "", expect_rule="body/chunked-iff"),
-    Mutant("chunked-for-head", HTTP, "                and self.method != b\"HEAD\"\n                and self.code not in NO_BODY_CODES", "                and self.code not in NO_BODY_CODES", expect_rule="body/chunked-iff"),
-    Mutant("no-body-codes-lose-304", HTTP, "NO_BODY_CODES = (204, 304)", "NO_BODY_CODES = (204,)", expect_rule="body/"),
-    Mutant("chunk-size-decimal", HTTP, "networkString(f\"{len(data):x}\")", "networkString(f\"{len(data):d}\")", expect_rule="chunk/encoding"),
+           "        self._rawHeaders.setdefault(_nameEncoder.encode(name), []).append(\n            value.encode(\"utf8\") if isinstance(value, str) else value\n        )"),
+    Mutant("setRawHeaders-skips-sanitiser", HDRS, "            encodedValues.append(_sanitizeLinearWhitespace(_v))", "            encodedValues.append(_v)"),
+    Mutant("setRawHeaders-raw-name", HDRS, "        self._rawHeaders[_name] = encodedValues", "        self._rawHeaders[name] = encodedValues"),
+    Mutant("sanitiser-leaves-CR", HDRS, "    return b\" \".join(headerComponent.splitlines())", "    return b\" \".join(headerComponent.split(b\"\\n\"))"),
+    Mutant("sanitiser-joins-without-space", HDRS, "    return b\" \".join(headerComponent.splitlines())", "    return b\"\".join(headerComponent.splitlines())"),
+    Mutant("name-not-token-checked", HDRS, "        if not _istoken(bytes_name):\n            raise InvalidHeaderName(bytes_name)\n", ""),
+    Mutant("cookie-semicolon-kept", HTTP, "            return _sanitizeLinearWhitespace(val).replace(b\";\", b\" \")", "            return _sanitizeLinearWhitespace(val)"),
+    Mutant("cookie-path-unsanitised", HTTP, "cookie + b\"; Path=\" + _sanitize(_ensureBytes(path))", "cookie + b\"; Path=\" + _ensureBytes(path)"),
+    Mutant("cookie-samesite-unchecked", HTTP, "            if sameSite not in [b\"lax\", b\"strict\"]:\n                raise ValueError(\"Invalid value for sameSite: \" + repr(sameSite))\n", ""),
+    Mutant("empty-write-chunk-encoded", HTTP, "        if data:\n            if self.chunked:", "        if True:\n            if self.chunked:"),
+    Mutant("body-for-204-304", HTTP, "            # for certain result codes, we should never return any data\n            if self.code in NO_BODY_CODES:\n                self.write = lambda data: None\n                return\n", ""),
+    Mutant("head-later-writes-enabled", HTTP, "            if self.method == b\"HEAD\":\n                self.write = lambda data: None\n                return", "            if self.method == b\"HEAD\":\n                return"),
+    Mutant("chunked-with-content-length", HTTP, "                and (self.responseHeaders.getRawHeaders(b\"Content-Length\") is None)\n", ""),
+    Mutant("chunked-for-head", HTTP, "                and self.method != b\"HEAD\"\n                and self.code not in NO_BODY_CODES", "                and self.code not in NO_BODY_CODES"),
+    Mutant("no-body-codes-lose-304", HTTP, "NO_BODY_CODES = (204, 304)", "NO_BODY_CODES = (204,)"),
+    Mutant("chunk-size-decimal", HTTP, "networkString(f\"{len(data):x}\")", "networkString(f\"{len(data):d}\")"),
     Mutant("plain-and-chunked-swapped", HTTP, "            if self.chunked:\n                self.channel.writeSequence(toChunk(data))\n            else:\n                self.channel.write(data)",
-           "            if not self.chunked:\n                self.channel.writeSequence(toChunk(data))\n            else:\n                self.channel.write(data)", expect_rule="body/encoding-matches-framing"),
-    Mutant("terminator-unconditional", HTTP, "        if self.chunked:\n            # write last chunk and closing CRLF\n            self.channel.write(b\"0\\r\\n\\r\\n\")", "        if True:\n            self.channel.write(b\"0\\r\\n\\r\\n\")",
-           expect_rule="finish/terminator-iff-chunked"),
-    Mutant("terminator-short", HTTP, "            self.channel.write(b\"0\\r\\n\\r\\n\")", "            self.channel.write(b\"0\\r\\n\")", expect_rule="finish/terminator"),
-    Mutant("finish-does-not-force-headers", HTTP, "        if not self.startedWriting:\n            # write headers\n            self.write(b\"\")\n\n        if self.chunked:", "        if self.chunked:", expect_rule="finish/"),
-    Mutant("header-block-unterminated", HTTP, "        headerSequence.append(b\"\\r\\n\")\n        self.transport.writeSequence(headerSequence)", "        self.transport.writeSequence(headerSequence)", expect_rule="wire/header-block-terminated"),
-    Mutant("foreign-headers-not-rebuilt", HTTP, "                sanitizedHeaders.addRawHeader(name, value)\n            headers = sanitizedHeaders\n", "                sanitizedHeaders.addRawHeader(name, value)\n            headers = Headers(dict(headers))\n",
-           expect_rule="headers/foreign-iterable-rebuilt"),
-    Mutant("status-line-no-space", HTTP, "headerSequence = [version, b\" \", code, b\" \", reason, b\"\\r\\n\"]", "headerSequence = [version, b\" \", code, reason, b\"\\r\\n\"]", expect_rule="wire/status-line"),
+           "            if not self.chunked:\n                self.channel.writeSequence(toChunk(data))\n            else:\n                self.channel.write(data)"),
+    Mutant("terminator-unconditional", HTTP, "        if self.chunked:\n            # write last chunk and closing CRLF\n            self.channel.write(b\"0\\r\\n\\r\\n\")", "        if True:\n            self.channel.write(b\"0\\r\\n\\r\\n\")"),
+    Mutant("terminator-short", HTTP, "            self.channel.write(b\"0\\r\\n\\r\\n\")", "            self.channel.write(b\"0\\r\\n\")"),
+    Mutant("finish-does-not-force-headers", HTTP, "        if not self.startedWriting:\n            # write headers\n            self.write(b\"\")\n\n        if self.chunked:", "        if self.chunked:"),
+    Mutant("header-block-unterminated", HTTP, "        headerSequence.append(b\"\\r\\n\")\n        self.transport.writeSequence(headerSequence)", "        self.transport.writeSequence(headerSequence)"),
+    Mutant("foreign-headers-not-rebuilt", HTTP, "                sanitizedHeaders.addRawHeader(name, value)\n            headers = sanitizedHeaders\n", "                sanitizedHeaders.addRawHeader(name, value)\n            headers = Headers(dict(headers))\n"),
+    Mutant("status-line-no-space", HTTP, "headerSequence = [version, b\" \", code, b\" \", reason, b\"\\r\\n\"]", "headerSequence = [version, b\" \", code, reason, b\"\\r\\n\"]"),
     Mutant("etag-set-after-headers-written", HTTP, "            if self.etag is not None:\n                self.responseHeaders.setRawHeaders(b\"ETag\", [self.etag])\n\n", "",
-           more=[(HTTP, "            self.channel.writeHeaders(version, code, reason, self.responseHeaders)\n", "            self.channel.writeHeaders(version, code, reason, self.responseHeaders)\n            if self.etag is not None:\n                self.responseHeaders.setRawHeaders(b\"ETag\", [self.etag])\n")],
-           expect_rule="headers/complete-before-written"),
+           more=[(HTTP, "            self.channel.writeHeaders(version, code, reason, self.responseHeaders)\n", "            self.channel.writeHeaders(version, code, reason, self.responseHeaders)\n            if self.etag is not None:\n                self.responseHeaders.setRawHeaders(b\"ETag\", [self.etag])\n")]),
 ]
 SILENT = [
+    Silent("response-head-in-helper", HTTP, "            self.channel.writeHeaders(version, code, reason, self.responseHeaders)\n", "            self._emitHead(version, code, reason)\n",
+           more=[(HTTP, "    def addCookie(\n", "    def _emitHead(self, version, code, reason):\n        self.channel.writeHeaders(version, code, reason, self.responseHeaders)\n\n    def addCookie(\n")]),
+    Silent("header-value-helper", HDRS, "            encodedValues.append(_sanitizeLinearWhitespace(_v))", "            encodedValues.append(_clean(_v))",
+           more=[(HDRS, "@comparable\nclass Headers:", "def _clean(value: bytes) -> bytes:\n    return _sanitizeLinearWhitespace(value)\n\n\n@comparable\nclass Headers:")]),
+    Silent("header-lines-by-comprehension", HTTP, "        for name, values in headers.getAllRawHeaders():\n            for value in values:\n                headerSequence.extend((name, b\": \", value, b\"\\r\\n\"))\n        headerSequence.append(b\"\\r\\n\")\n        self.transport.writeSequence(headerSequence)",
+           "        lines = [piece for name, values in headers.getAllRawHeaders() for value in values for piece in (name, b\": \", value, b\"\\r\\n\")]\n        self.transport.writeSequence(headerSequence + lines + [b\"\\r\\n\"])"),
+    Silent("cookie-parts-joined", HTTP, "        if secure:\n            cookie = cookie + b\"; Secure\"\n        if httpOnly:\n            cookie = cookie + b\"; HttpOnly\"",
+           "        for flag, on in ((b\"; Secure\", secure), (b\"; HttpOnly\", httpOnly)):\n            if on:\n                cookie = b\"\".join([cookie, flag])"),
     Silent('token-regex-Z-anchored', ABNF, '    for c in b:\n        if c not in (\n            b"ABCDEFGHIJKLMNOPQRSTUVWXYZabcdefghijklmnopqrstuvwxyz"  # ALPHA\n            b"0123456789"  # DIGIT\n            b"!#$%&\'*+-.^_`|~"\n        ):\n            return False\n    return b != b""\n', '    return _TOKEN_RE.match(b) is not None\n', more=[(ABNF, '"""\n\n\ndef _istoken', '"""\n\nimport re\n\n_TOKEN_RE = re.compile(rb"[A-Za-z0-9!#$%&\'*+\\-.^_`|~]+\\Z")\n\n\ndef _istoken')]),
     Silent('token-regex-fullmatch', ABNF, '    for c in b:\n        if c not in (\n            b"ABCDEFGHIJKLMNOPQRSTUVWXYZabcdefghijklmnopqrstuvwxyz"  # ALPHA\n            b"0123456789"  # DIGIT\n            b"!#$%&\'*+-.^_`|~"\n        ):\n            return False\n    return b != b""\n', '    return _TOKEN_RE.fullmatch(b) is not None\n', more=[(ABNF, '"""\n\n\ndef _istoken', '"""\n\nimport re\n\n_TOKEN_RE = re.compile(rb"[A-Za-z0-9!#$%&\'*+\\-.^_`|~]+")\n\n\ndef _istoken')]),
     Silent('name-cached-by-helper-after-validation', HDRS, '        if not _istoken(bytes_name):\n            raise InvalidHeaderName(bytes_name)\n\n        result = b"-".join([word.capitalize() for word in bytes_name.split(b"-")])\n', '        if not _istoken(bytes_name):\n            raise InvalidHeaderName(bytes_name)\n        return self._remember(name, bytes_name)\n\n    def _remember(self, name, bytes_name):\n        result = b"-".join([word.capitalize() for word in bytes_name.split(b"-")])\n'),
